@@ -12,6 +12,7 @@ namespace xsv
         K_VAL, // ordinary lane value of the element type
         K_COUNT, // shift/rotate count: lane value in [0,bits)
         K_MASK, // batch_bool image: one byte per lane (0/1)
+        K_IEXP, // integer exponent lane (same width as the floating element): ldexp
         K_NONE
     };
     enum ImmKind
@@ -90,13 +91,16 @@ namespace xsv
             d.kind[i] = K_VAL;
         return d;
     }
-    inline const OpDef* find_op(const std::string& name)
+    inline const OpDef* find_op(const std::string& name, int type = -1)
     {
         for (auto& d : op_registry())
-            if (d.name == name)
+            if (d.name == name && (type < 0 || d.judge[type]))
                 return &d;
         return nullptr;
     }
+
+#define XSV_J [](auto* a, int64_t imm, auto got, auto& exp, unsigned& cls) -> int
+#define XSV_T typename std::remove_reference<decltype(exp)>::type
 
     // typed judge adaptor.  F: int(const T* in, int64_t imm, R got, R& exp, unsigned& cls)
     template <class T, class R, class F>
@@ -428,7 +432,7 @@ namespace xsv
             fprintf(stderr, "replay: need op type target imm in0...\n");
             return 2;
         }
-        const OpDef* d = find_op(tok[0]);
+        const OpDef* d = find_op(tok[0], type_from_name(tok[1]));
         if (!d)
         {
             fprintf(stderr, "replay: unknown op %s\n", tok[0].c_str());
